@@ -30,7 +30,7 @@ def c07_spaces(tier):
         sp.append(("A2:1pos,n<=4,L<=3,carriers", H(0, 4), ["x"], (0, 1), 2, 3, False, "all+single", ("cn", "next"), ("variant", "mixin")))
         sp.append(("V:1pos,n<=4,L<=3,cnv", H(1, 4), ["x"], (0, 1), 2, 3, False, "cnv", ("cnv",), ("plain",)))
         sp.append(("B:2pos,n<=3,L<=3,prio", H(0, 3), ["xy"], (0, 1), 1, 3, False, "all+single", ("cn", "next"), ("plain",)))
-        sp.append(("V2:2pos,n<=3,L<=3,cnv2", H(1, 3), ["xy"], (0, 1), 2, 3, False, "cnv", ("cnv2",), ("plain", "self")))
+        sp.append(("V2:2pos,n<=3,L<=3,cnv2", H(1, 3), ["xy"], (0,), 2, 3, False, "cnv", ("cnv2",), ("plain",)))
         sp.append(("C:2pos,n=4,L=3,distinct", H(4, 4), ["xy"], (0,), 3, 3, True, "all+single", ("cn",), ("plain",)))
         sp.append(("K:kw,n<=2,L<=3", H(0, 2), ["x", "x*k", "xy"], (0, 1), 1, 3, False, "all+single", ("cn",), ("plain",)))
     return sp
